@@ -60,3 +60,9 @@ CORPUS += [
         expect=[('C20.H', 'matrix-of-the-current-state-is-read-before-the-precision-is-replaced')],
         more=[dict(scope='GMRFPiecewiseCoalescentBlockUpdatingOperator._step', old='backwardQW = precision_matrix.clone()', new='precision_matrix = self.gmrf.precision_matrix()\nbackwardQW = precision_matrix.clone()')]),
 ]
+CORPUS += [
+    Mut('c20-benign-event-count-by-floor-division', CO, '', "        internal_count = int((node_heights.shape[-1] + 1) / 2) - 1\n", "        internal_count = node_heights.shape[-1] // 2\n", mode='text', benign=True),
+    Mut('c20-event-count-is-the-taxon-count', CO, '', "        internal_count = int((node_heights.shape[-1] + 1) / 2) - 1\n", "        internal_count = (node_heights.shape[-1] + 1) // 2\n", mode='text',
+        expect=[('C20.S', 'ConstantCoalescentIntegrated.log_prob::closed-form')]),
+    Mut('c20-benign-field-dimension-through-a-local', GM, '', "        dim = self.field.shape[-1] - 1.0  # field dim\n", "        size = self.field.shape[-1]\n        dim = size - 1\n", mode='text', benign=True),
+]
